@@ -272,7 +272,15 @@ func ruleFilterPredicates(c *Ctx) {
 		called := false
 		for _, ci := range callsIn(tg, false, F(acm)) {
 			a := callArgs(ci.Common())
-			if len(a) >= 1 && isConstInt(k)(a[0]) {
+			isK := false
+			if len(a) >= 1 {
+				for _, alt := range valueAlternatives(a[0], 3) { // the list may be chosen into a local first
+					if isConstInt(k)(alt) {
+						isK = true
+					}
+				}
+			}
+			if isK {
 				called = true
 				// reached only when the flag is set; a match leads straight to `return false`
 				_, fails := requireAt(P, tg, 0, []Ev{&guardEv{name: sp.flag, match: func(cond ssa.Value, pos bool) bool { return pos && isLoadOf(cond, flag) }}}, func(x ssa.Instruction) bool { return x == ci.(ssa.Instruction) }, all)
